@@ -1,5 +1,6 @@
 //! vcore: shared machinery for the runtime-monitoring checks of serde-saphyr.
 pub mod budgetmodel;
+pub mod capped;
 pub mod errs;
 pub mod hooks;
 pub mod obs;
